@@ -8,10 +8,11 @@ import CimbaModel.Sim.S3PInvCor
 import CimbaModel.Sim.S3All
 import CimbaModel.Sim.S3Built
 import CimbaModel.Sim.S5Pattern
+import CimbaModel.Sim.S7TimerOf
 
 namespace CimbaModel.Props.C04
 open CimbaModel CimbaModel.Sim CimbaModel.Event CimbaModel.Generated CimbaModel.KPQ
-open CimbaModel.Sim.S3 CimbaModel.Sim.S5
+open CimbaModel.Sim.S3 CimbaModel.Sim.S5 CimbaModel.Sim.S7
 open CimbaModel.HashHeap (HTag HH WF abs init_spec)
 
 /-- a timer (and hence a hold, which is a timer with the success code) armed for `d ≥ 0` is a pending event at
@@ -404,6 +405,118 @@ theorem timer_primitives {ex : Pid → Prop} {w : World} (hp : TInv ex w) (p : P
 /- non-vacuity: the initial world satisfies the kernel invariant, so the hypotheses `EvInv w.ev`, `0 ≤ d` are satisfiable,
    and a hold really arms an event there -/
 example : EvInv ({} : World).ev ∧ (holdWorld {} 0 5).ev.pending.length = 1 := ⟨Event.init_inv 0, rfl⟩
+
+/-! ### the timer API applied to ANOTHER process: commands `timersClearOf q` / `timerAddOf q d sig`
+
+`cmb_process_timers_clear(pp)` and `cmb_process_timer_add(pp, dur, sig)` take the process as an argument.  Applied to a process
+`q` that is suspended in a wait, `timers_clear` has to skip the non-timer awaitables (the registration of the pending wait)
+standing in front of the timers in `q`'s awaits list.  Both commands are skipped unless `q` is a started, unfinished process
+(`timer_of_skipped`).  A `hold` is a timer with the success code registered like any other (`cmb_process_hold` arms it with
+`timer_add`): clearing the timers of a process that is in `hold` cancels the hold's own wake-up, and the process stays
+suspended until something else (interrupt, resume, stop) reaches it — in the library and in the model alike. -/
+
+/-- `timers_clear_of_exact`: `timersClearOf q`, executed by any process `p` in a state satisfying the timer invariant
+    (`TInvB`, every reachable state: `timer_inv_reachable`), with `q` started and unfinished — running or suspended in
+    whatever wait. Afterwards:
+    (1) `q`'s record is the old one with the TIME awaitables removed from its awaits list: every other awaitable (the
+        RESOURCE / PROCESS / EVENT registration of the wait it is suspended in) is still there, in the same order, and the frame
+        it is suspended in, its status, priority, waiters, holdings, program counter and variables are unchanged — `q` stays
+        suspended in the wait it was in;  (2) no TIME awaitable of `q` is left;
+    (3) no timer event addressed to `q` is pending;
+    (4) every other process is untouched;
+    (5) the old events that are left are exactly the old events that were not timer events of `q`, in their old order;
+    (6) every new event (handle beyond the old counter) is the (aEvent, CANCELLED) wake-up, at the current time and with its own
+        priority, of a process that was registered (`wait_event`) as a waiter of one of the cleared timer events;
+    (7) when nobody waits for a timer event of `q` (the variable discipline of the scenario language: `wait_event` on user
+        events only) the event queue is exactly the old one without `q`'s timer events;
+    (8) the registrations with every event that is not a cleared timer are untouched;
+    (9) the waiting lists of all guards, the resources, pools, buffers, queues, conditions, flags, the clock and the fault
+        flag are unchanged;
+    (10) the command returns 0. -/
+theorem timers_clear_of_exact {w : World} (ht : TInvB w) (p q : Pid) (hr : (w.proc q).status = .running) :
+    ∀ w', w' = (execCmd w p (.timersClearOf q)).1 →
+    w'.proc q = { w.proc q with awaits := (w.proc q).awaits.filter (fun a => !isTimeA a) } ∧
+    (∀ k, Await.time k ∉ (w'.proc q).awaits) ∧
+    (∀ e ∈ w'.ev.pending, e.item.a = aTime → e.item.b ≠ q + 1) ∧
+    (∀ x, x ≠ q → w'.proc x = w.proc x) ∧
+    w'.ev.pending.filter (fun e => decide (e.key ≤ w.ev.counter)) =
+      w.ev.pending.filter (fun e => !(decide (e.item.a = aTime) && decide (e.item.b = q + 1))) ∧
+    (∀ e ∈ w'.ev.pending, w.ev.counter < e.key → ∃ h, Await.time h ∈ (w.proc q).awaits ∧
+      ∃ x ∈ (w.evWaiters.lookup h).getD [], e = mkEv e.key aEvent (x + 1) sigCancelled w.now (w.proc x).prio) ∧
+    ((∀ k, Await.time k ∈ (w.proc q).awaits → (w.evWaiters.lookup k).getD [] = []) →
+      w'.ev.pending = w.ev.pending.filter (fun e => !(decide (e.item.a = aTime) && decide (e.item.b = q + 1)))) ∧
+    (∀ k, Await.time k ∉ (w.proc q).awaits → w'.evWaiters.lookup k = w.evWaiters.lookup k) ∧
+    (w'.guards = w.guards ∧ w'.res = w.res ∧ w'.pools = w.pools ∧ w'.bufs = w.bufs ∧ w'.oqs = w.oqs ∧ w'.pqs = w.pqs ∧
+      w'.conds = w.conds ∧ w'.flags = w.flags ∧ w'.now = w.now ∧ w'.fault = w.fault) ∧
+    (match (execCmd w p (.timersClearOf q)).2 with | .ret v extra => v = 0 ∧ extra = "" | _ => False) := by
+  intro w' hw'
+  rw [execCmd_timersClearOf w p q hr] at hw' ⊢
+  subst hw'
+  obtain ⟨hc, hno, hold⟩ := timersClear_exact ht q
+  have hlt : q < w.procs.size := lt_of_running hr
+  have hrec := hc.target hlt
+  rw [dropTimers_eq] at hrec
+  refine ⟨hrec, ?_, hno, hc.others, hold, ?_, fun hnw => timersClear_no_waiters ht q hnw,
+    fun k hk => hc.kept k (fun h => hk (mem_timerHandles.1 h)),
+    ⟨hc.guards, hc.res, hc.pools, hc.bufs, hc.oqs, hc.pqs, hc.conds, hc.flags, hc.now, hc.fault⟩, ⟨rfl, rfl⟩⟩
+  · intro k hk
+    rw [hc.target hlt] at hk
+    exact time_not_mem_dropTimers _ k hk
+  · intro e he hk
+    obtain ⟨h, hh, x, hx, heq⟩ := hc.new e he hk
+    exact ⟨h, mem_timerHandles.1 hh, x, hx, heq⟩
+
+/-- `timer_add_of_exact`: `timerAddOf q d sig` with `d ≥ 0`, executed by any process `p` in any state, `q` started and
+    unfinished: exactly one new event is pending — the timer (action aTime) addressed to `q`, carrying the signal, due at
+    now + d, with `q`'s priority, under the next handle — in front of the old ones; it is registered as TIME(handle) at the head
+    of `q`'s awaits list and nothing else of `q`'s record changes (`q` stays suspended where it was); every other process,
+    the registrations with events, the waiting lists, the objects, the clock and the fault flag are untouched; the command
+    returns 0 (and logs the handle, which the program does not keep). -/
+theorem timer_add_of_exact (w : World) (p q : Pid) (d sig : Int) (hd : 0 ≤ d) (hr : (w.proc q).status = .running) :
+    ∀ w', w' = (execCmd w p (.timerAddOf q d sig)).1 →
+    w'.ev.pending = mkEv (w.ev.counter + 1) aTime (q + 1) sig (w.now + d) (w.proc q).prio :: w.ev.pending ∧
+    w'.ev.counter = w.ev.counter + 1 ∧
+    w'.proc q = { w.proc q with awaits := .time (w.ev.counter + 1) :: (w.proc q).awaits } ∧
+    (∀ x, x ≠ q → w'.proc x = w.proc x) ∧
+    (w'.evWaiters = w.evWaiters ∧ w'.guards = w.guards ∧ w'.res = w.res ∧ w'.pools = w.pools ∧ w'.bufs = w.bufs ∧
+      w'.oqs = w.oqs ∧ w'.pqs = w.pqs ∧ w'.conds = w.conds ∧ w'.flags = w.flags ∧ w'.now = w.now ∧ w'.fault = w.fault) ∧
+    (match (execCmd w p (.timerAddOf q d sig)).2 with
+      | .ret v extra => v = 0 ∧ extra = s!"h={w.ev.counter + 1}" | _ => False) := by
+  intro w' hw'
+  rw [execCmd_timerAddOf w p q d sig hr, timerAdd_exact w q d sig hd] at hw' ⊢
+  subst hw'
+  have hlt : q < w.procs.size := lt_of_running hr
+  refine ⟨rfl, rfl, ?_, ?_, ⟨rfl, rfl, rfl, rfl, rfl, rfl, rfl, rfl, rfl, rfl, rfl⟩, ⟨rfl, rfl⟩⟩
+  · show ((pushEv w aTime (q + 1) sig (w.now + d) (w.proc q).prio).modProc q _).proc q = _
+    rw [modProc_proc_self (pushEv w aTime (q + 1) sig (w.now + d) (w.proc q).prio) _ (show q < _ from hlt)]; rfl
+  · intro x hx
+    show ((pushEv w aTime (q + 1) sig (w.now + d) (w.proc q).prio).modProc q _).proc x = _
+    rw [modProc_proc_ne (pushEv w aTime (q + 1) sig (w.now + d) (w.proc q).prio) _ hx]; rfl
+
+/-- both commands are skipped — nothing changes — when the target has not been started or has finished -/
+theorem timer_of_skipped (w : World) (p q : Pid) (hr : (w.proc q).status ≠ .running) :
+    execCmd w p (.timersClearOf q) = (w, .skip) ∧ ∀ d sig, execCmd w p (.timerAddOf q d sig) = (w, .skip) :=
+  execCmd_timerOf_skip w p q hr
+
+/- non-vacuity: `clearOfWorld` (Sim/S7TimerOf: the scenario `res / proc 9: acq 0, hold 10 / proc 5: tadd 0 3 -5, tadd 1 4 -7,
+   acq 0 / proc 1: hold 1, tclearo 1` after its three start events) is a reachable state of a loaded scenario, so `TInvB` holds;
+   process 1 is suspended in `acquire 0` with awaits [RESOURCE 0, TIME 6, TIME 5]; `timersClearOf 1` executed by process 2
+   leaves it suspended in that acquire with awaits [RESOURCE 0], the two timer events (due at 3 and 4) are gone, the hold
+   wake-ups of processes 0 and 2 are still pending; `timerAddOf 1 2 11` puts one timer event for process 1 at time 2 with
+   priority 5 in front and registers it -/
+example : TInvB clearOfWorld ∧ (clearOfWorld.proc 1).status = .running ∧
+    (clearOfWorld.proc 1).awaits = [.guard 0, .time 6, .time 5] ∧
+    (match (clearOfWorld.proc 1).blocked with | some (.acquire 0) => true | _ => false) = true ∧
+    (clearOfWorld.ev.pending.map fun e => (e.key, e.item.a, e.item.b, decSig e.item.c, e.d, e.i)) =
+      [(7, aTime, 3, 0, 1, 1), (6, aTime, 2, -7, 4, 5), (5, aTime, 2, -5, 3, 5), (4, aTime, 1, 0, 10, 9)] ∧
+    ((execCmd clearOfWorld 2 (.timersClearOf 1)).1.proc 1).awaits = [.guard 0] ∧
+    (match ((execCmd clearOfWorld 2 (.timersClearOf 1)).1.proc 1).blocked with | some (.acquire 0) => true | _ => false) = true ∧
+    ((execCmd clearOfWorld 2 (.timersClearOf 1)).1.ev.pending.map fun e => (e.key, e.item.a, e.item.b, decSig e.item.c, e.d, e.i)) =
+      [(7, aTime, 3, 0, 1, 1), (4, aTime, 1, 0, 10, 9)] ∧
+    ((execCmd clearOfWorld 2 (.timerAddOf 1 2 11)).1.proc 1).awaits = [.time 8, .guard 0, .time 6, .time 5] ∧
+    (((execCmd clearOfWorld 2 (.timerAddOf 1 2 11)).1.ev.pending.map fun e => (e.key, e.item.a, e.item.b, decSig e.item.c, e.d, e.i)).head? =
+      some (8, aTime, 2, 11, 2, 5)) := by
+  refine ⟨clearOfWorld_tinv, ?_, ?_, ?_, ?_, ?_, ?_, ?_, ?_, ?_⟩ <;> decide +kernel
 
 /-! ### the whole of NoStaleInv, I_guard and "exactly one cause": `AllInv`
 
